@@ -1370,10 +1370,18 @@ func c07FileCase(c *core.Ctx, cs *c07File) bool {
 	if len(first.failed) == 0 {
 		return true
 	}
+	if c07Shrunk[first.failed[0]] {
+		// one shrunk replay per class of failure; further cases are reported as they are
+		c07RunFile(&c07Rep{c: c}, cs, -1)
+		return false
+	}
+	c07Shrunk[first.failed[0]] = true
 	min := c07Shrink(c, cs, first.failed[0])
 	c07RunFile(&c07Rep{c: c}, min, -1)
 	return false
 }
+
+var c07Shrunk = map[string]bool{}
 
 func c07Shrink(c *core.Ctx, cs *c07File, class string) *c07File {
 	deadline := time.Now().Add(25 * time.Second)
